@@ -12,7 +12,7 @@ from . import chan_gen as cg
 NREADERS = 4
 
 
-def make_job(rng, seed, nfiles=(2, 4), mode=None, small=True):
+def make_job(rng, seed, nfiles=(2, 4), mode=None, small=True, restart=False):
     """a short gapped / continuous recording: open, a few writes with gaps and multi-file spans, close"""
     mode = mode or rng.choice(["gapped", "gapped", "contU", "contC"])
     realis = rng.choice([(10, 3, 1000, 2), (500, 9, 60, 3), (100, 1, 100, 1), (7, 2, 1000, 3), (48000, 1, 1, 1)])
@@ -48,6 +48,16 @@ def make_job(rng, seed, nfiles=(2, 4), mode=None, small=True):
         ops.append(["write", a - start, ln])
         pos = a + ln
     ops.append(["close"])
+    if restart:
+        # the recorder is restarted on the same channel with a start index inside a period that is already published,
+        # then records a later free period
+        j = rng.randint(0, max(0, nw - 3))
+        s2 = b[j] + rng.randint(0, b[j + 1] - b[j] - 1)
+        ops.append(["open", s2 + cc.B])
+        ops.append(["write", 0, rng.choice([1, 2, b[j + 1] - s2 + 1])])
+        if pos <= b[-1] - 2:
+            ops.append(["write", pos - s2, min(2, b[-1] - pos)])
+        ops.append(["close"])
     return cc, ops
 
 
